@@ -38,18 +38,36 @@ var (
 	Local = stdtime.Local
 )
 
-type clock struct{ t Time }
+type clock struct {
+	t    Time
+	step Duration // every Now() advances the clock by step (0 = frozen)
+	n    int
+}
 
 var cur atomic.Pointer[clock]
 
 // Set freezes Now at t (including t's Location, which plays the role of the
 // process-local zone). Unset returns to the real clock.
-func Set(t Time) { cur.Store(&clock{t}) }
+func Set(t Time) { cur.Store(&clock{t: t}) }
 func Unset()     { cur.Store(nil) }
+
+// SetStepping makes Now return t, t+step, t+2*step, ... (one step per call), so that code
+// reading the clock twice sees two different instants.
+func SetStepping(t Time, step Duration) { cur.Store(&clock{t: t, step: step}) }
+
+// Calls reports how many times Now was called since Set/SetStepping.
+func Calls() int {
+	if c := cur.Load(); c != nil {
+		return c.n
+	}
+	return 0
+}
 
 func Now() Time {
 	if c := cur.Load(); c != nil {
-		return c.t
+		t := c.t.Add(Duration(c.n) * c.step)
+		c.n++
+		return t
 	}
 	return stdtime.Now()
 }
